@@ -218,7 +218,7 @@ Definition ops : list op := [
                   | _, [] => (Some (ser_items (zN pid) true l), None)
                   | _, _ =>
                     let missing := missing_of (map epid (sstreams sc)) (zN pid) w in
-                    if N.eqb (len missing) (len w) then (None, Some missing)
+                    if none_present (map epid (sstreams sc)) (zN pid) w then (None, Some missing)
                     else (Some (spec_repack (hdrs_of (zN pid) true l)
                                   (ser_unit {| pf := zN p; pre := []; sec := filtered_sec sc w; stuffing := 0 |})),
                           match missing with [] => None | _ => Some missing end)
